@@ -210,6 +210,9 @@ pub enum Op {
     Instance { coords: Vec<i32> },
     /// WOFF / WOFF2 extended metadata (Image mode).
     Metadata,
+    /// Fetch every table of the provider (for WOFF2: the reconstructed glyf/loca/hmtx and the
+    /// rest) so that C09 can check them for mutual consistency.
+    Reconstruct,
 }
 
 impl Op {
@@ -238,6 +241,7 @@ impl Op {
             Op::WholeFont { .. } => "WholeFont",
             Op::Instance { .. } => "Instance",
             Op::Metadata => "Metadata",
+            Op::Reconstruct => "Reconstruct",
         }
     }
 
